@@ -130,6 +130,21 @@ func Alphabet(c *Codec, rich bool) (all []Shape, big []Shape) {
 			}
 		}
 	}
+	// packets that aggregate many small units (per-unit header arithmetic that depends on the count)
+	if c.MaxUnits >= 2 {
+		for _, n := range []int{8, 20} {
+			if c.UnitCountLimit > 0 && n > c.UnitCountLimit {
+				continue
+			}
+			f := make([]int, n)
+			for i := range f {
+				f[i] = ladderUnits(c)[0]
+			}
+			if es, err := EncodeStream(c, 1450, [][]int{f}); err == nil && len(es.Pkts[0]) == 1 {
+				add(fmt.Sprintf("ladder%d.only", n), clonePayload(es.Pkts[0][0].Payload))
+			}
+		}
+	}
 	switch c.Base {
 	case "h264":
 		// a NALU that contains an Annex-B start code switches the decoder to Annex-B mode for good
